@@ -528,6 +528,11 @@ def gen(rng, tier):
                 cases.append(mk(mode, wrap(mode, d), [dict(x), dict(y)], reparse=rng.chance(1, 2)))
     cases.extend(values_key_family())
     cases.extend(comment_family(rng, thorough))
+    for label, text, opss in KEYLINE_DOCS:
+        for k, ops in enumerate(opss):
+            for mode in ("cli", "api"):
+                cases.append({"mode": mode, "reparse": (k % 2 == 0), "ast": None, "doc": text, "family": "keyline:" + label,
+                              "ops": [dict(o) for o in (ops if mode == "cli" else api_ops(ops))]})
     cases.extend(size_family(rng, thorough))
     cases.extend(malformed_doc_family())
     # ---- random stream ----------------------------------------------------------------------------------
@@ -646,6 +651,21 @@ def api_ops(ops):
         o2["path"] = path_text(fp)
         out.append(o2)
     return out
+
+
+# a key's LINE comment whose collection value starts on the FOLLOWING line - flow or block, sequence or mapping, also
+# empty - with a sibling after it: a command addressed below that key must leave the comment with the key and the sibling
+# untouched (seeded change C15-n: the comment moved to the next entry for flow values).  Only commands BELOW the commented
+# key: a command on a sibling goes through yaml.v3's writer without esc's fix-up, and yaml.v3 alone moves such a comment to
+# the next entry (observation, DESIGN §8)
+KEYLINE_DOCS = [
+    ("flow-seq", "values:\n  a: # note\n    [1, 2]\n  b: x\n", [[_S(["a", 0], "5")], [_R(["a", 1])], [_S(["a", 2], "3")]]),
+    ("flow-map", "values:\n  a: # note\n    {k: 1, j: 2}\n  b: x\n", [[_S(["a", "k"], "5")], [_R(["a", "j"])], [_S(["a", "n"], "3")]]),
+    ("block-seq", "values:\n  a: # note\n    - 1\n    - 2\n  b: x\n", [[_S(["a", 0], "5")], [_R(["a", 1])], [_R(["a", 0]), _R(["a", 0])]]),
+    ("block-map", "values:\n  a: # note\n    k: 1\n    j: 2\n  b: x\n", [[_S(["a", "k"], "5")], [_R(["a", "j"])], [_R(["a", "k"]), _R(["a", "j"])]]),
+    ("flow-nested", "values:\n  o:\n    a: # note\n      [1, {k: v}]\n    b: x\n  z: 1\n", [[_S(["o", "a", 0], "5")], [_S(["o", "a", 1, "k"], "w")]]),
+    ("flow-last", "values:\n  b: x\n  a: # note\n    [1, 2]\n", [[_S(["a", 0], "5")], [_R(["a", 0])]]),
+]
 
 
 def comment_family(rng, thorough):
@@ -862,7 +882,13 @@ def line(c, o):
     if len(steps) < len(c["ops"]) and not steps:
         return None
     wmode = c["mode"] if c["mode"] != "api" or c.get("reparse", True) else "apimem"
-    return "(c15 %s %s %s (%s))" % (wmode, wnode(o["doc0"]), wnode(o.get("doc0rt") or o["doc0"]), " ".join(steps))
+    rt = o.get("doc0rt") or o["doc0"]
+    if str(c.get("family", "")).startswith("keyline:"):
+        # These documents are ones yaml.v3 ALONE does not write back (it moves the key's line comment to the next entry);
+        # esc's own fix-up (fixKeyComment, modelled: source fact fixes_key_line_comment) is what keeps the comment with its
+        # key, so they are judged although the generic domain guard (Corr/C15.v `stable`) would set them aside.
+        rt = o["doc0"]
+    return "(c15 %s %s %s (%s))" % (wmode, wnode(o["doc0"]), wnode(rt), " ".join(steps))
 
 
 # ---------------------------------------------------------------------------------------------------------
